@@ -328,7 +328,8 @@ def decide(pid, tier, seed, task_results, bounded, t0, design_ref, extra_assumpt
         "undecided": len(undecided),
         "checker_cmd": f"bin/check {pid} {tier}",
         "trusted_base": TRUSTED_ENGINE,
-        "backends": {"z3-5.1.0 (python API, E-matching)": n},
+        "backends": {k: v for k, v in (("z3-5.1.0 (python API, E-matching)", n - sum(1 for o in obs if o.get("kind") == "lemma-lean")),
+                                        ("lean-4 + Mathlib (lemmas/*.lean compiled on every run)", sum(1 for o in obs if o.get("kind") == "lemma-lean"))) if v},
         "solver_time_s": round(solver_time, 3),
         "paths": paths,
         "tasks": len(task_results),
